@@ -115,3 +115,34 @@ prop("C09", module="MW.Props.C09", title="ibc-hooks sender derivation",
      weights={"deliver": 25, "rewards": 25, "update_config": 10, "unauthorized": 10, "submit": 8, "unstake": 8, "stake": 10},
      assumptions=["SHA-256 collision resistance (the no-impersonation theorem is a reduction to a collision)",
                   "the specification is osmosis x/ibc-hooks DeriveIntermediateSender + cosmos-sdk address.Hash; an independent Python implementation (hashlib + reference bech32) is compared on every generated triple"])
+
+LEDGER_NOTE = ("the equation about the chain's bank / IBC ledgers itself is evaluated on every run by the executable monitor on the "
+               "simulator's ledgers and the real contract's answers; the Lean theorems cover the contract side over all histories "
+               "(see the *_partial theorems and DESIGN.md §6)")
+
+prop("C01", module="MW.Props.C01", title="staked-asset accounting fully backed", builds=["osmosis", "miniwasm"],
+     variants=["liquid_stake", "receive_rewards", "submit_batch", "recover_pending_ibc_transfers", "reply", "sudo", "resume_contract"],
+     state_keys=["state", "batches", "ibc_queue", "raw_totals"],
+     weights={"stake": 22, "rewards": 10, "unstake": 10, "submit": 10, "ack": 12, "timeout": 5, "recover": 8, "resume": 3, "deliver": 6},
+     quick_histories=80,
+     assumptions=["StableRouting and NoForcedResendOfInFlight for the ledger-location part (DESIGN.md §4.4)", LEDGER_NOTE])
+
+prop("C02", module="MW.Props.C02", title="solvency of the contract-held staked asset",
+     variants=["liquid_stake", "receive_rewards", "receive_unstaked_tokens", "withdraw", "fee_withdraw",
+               "recover_pending_ibc_transfers", "reply", "sudo"],
+     state_keys=["state", "batches", "requests", "ibc_queue"],
+     weights={"withdraw": 20, "deliver": 14, "unstake": 14, "submit": 10, "stake": 14, "rewards": 8, "fee_withdraw": 6, "ack": 8, "timeout": 4, "recover": 6, "donate": 2},
+     assumptions=[LEDGER_NOTE])
+
+prop("C03", module="MW.Props.C03", title="LST supply integrity and exact delivery", builds=["osmosis", "miniwasm"],
+     variants=["liquid_stake", "liquid_unstake", "submit_batch", "recover_pending_ibc_transfers", "reply", "sudo", "resume_contract"],
+     state_keys=["state", "batches", "pending", "ibc_queue"],
+     weights={"stake": 30, "unstake": 14, "submit": 12, "ack": 10, "timeout": 5, "recover": 6},
+     profile={"equal_prefixes": None}, quick_histories=80,
+     assumptions=[LEDGER_NOTE])
+
+prop("C07", module="MW.Props.C07", title="IBC transfers tracked and recovered",
+     variants=["liquid_stake", "receive_rewards", "recover_pending_ibc_transfers", "reply", "sudo"],
+     state_keys=["ibc_queue", "reply_queue", "state"],
+     weights={"stake": 22, "rewards": 8, "ack": 18, "timeout": 8, "recover": 16, "stray": 6, "advance": 4},
+     assumptions=["reply ids are unique per transaction under EnvTime (time-derived ids)", LEDGER_NOTE])
